@@ -74,7 +74,14 @@ Print Assumptions C03_core_StepHolds.
 Theorem C03_core_satisfiable : forall H, wf_hier H ->
   forall fuel sc prog vals s, progP H 0 prog ->
   run_cmds H fuel prog 0 [] (empty_store sc) = (None, vals, s) ->
-  exists th, sat H th s.
+  exists th, sat H th s /\
+    (* the canonical choice: lower bound, else upper bound, else Top *)
+    forall v, c_bound (cell_of s v) = None ->
+      th v = match c_lower (cell_of s v), c_upper (cell_of s v) with
+             | Some l, _ => TOp l []
+             | None, Some u => TOp u []
+             | None, None => TOp Top []
+             end.
 Proof. exact core_satisfiable. Qed.
 Print Assumptions C03_core_satisfiable.
 
@@ -279,3 +286,9 @@ Proof.
   - intros S. destruct (S 0) as [_ [_ Su]]. destruct (Su 6 eq_refl) as (b & [= <-] & [E|[E|A]]);
       try discriminate. inversion A as [|? ? ? Hp _]; subst. discriminate.
 Qed.
+
+(* why there is no "equality" reading for subtype=False: the Bottom/Top shortcut of
+   unify does not look at the flag (type.py: `if a.operator is Bottom or b.operator is Top: return`) *)
+Example ex_unify_nosub_bottom :
+  unify exH 10 false false false (O Bottom []) (O 5 []) (empty_store []) = MOk tt (empty_store []).
+Proof. reflexivity. Qed.
